@@ -1472,7 +1472,11 @@ class TypeBlocks(ContainerOperand):
             if not wrap:
                 shape = (self._shape[0], min(self._shape[1], abs(column_shift)))
                 empty = np.full(shape, fill_value)
-                if column_shift > 0:
+                if abs(column_shift) >= column_count:
+                    # every column is shifted out: only the fill remains
+                    block_head_iter = (empty,)
+                    block_tail_iter = ()
+                elif column_shift > 0:
                     block_head_iter = (empty,)
                 elif column_shift < 0:
                     block_tail_iter = (empty,)
